@@ -48,12 +48,18 @@ func main() {
 	repo := flag.String("repo", "/repo", "repository working tree (fixtures, sources)")
 	verif := flag.String("verif", "/verif", "verification directory")
 	ops := flag.String("ops", "", "comma-separated ops the driver implements")
+	stress := flag.String("stress", "", "re-run one recorded expansion case many times under the C02/C03 oracles (diagnosis)")
+	stressN := flag.Int("n", 300, "number of runs for -stress")
 	iso := flag.Bool("isolated", false, "run one call read from stdin in this fresh process and print its result (C16 reference runs)")
 	flag.Parse()
 	// the package logs every error it continues on (ContinueOnError) through the standard logger
 	log.SetOutput(io.Discard)
 	if *iso {
 		isolatedMain()
+		return
+	}
+	if *stress != "" {
+		stressMain(*stress, *stressN)
 		return
 	}
 	r, ok := runners[*prop]
